@@ -16,6 +16,7 @@ func init() {
 	register("seq", opSeq)
 	register("freshrun", opFreshRun)
 	register("race", opRace)
+	register("reexec", opReexec)
 }
 
 // seq <shared 0|1> <n> <src-cps>*n  →  canonical outcome of the LAST program, after the others ran in this process
@@ -122,4 +123,31 @@ func opRace(f []string) string {
 		return bad
 	}
 	return "ok"
+}
+
+// reexec <n> <src-cps>  →  the outcomes of n executions of ONE loaded program (`l := it.LoadScript(src)`, then l.Execute n times),
+// joined by " ;; " — every execution is a run of its own: all must equal the program's outcome in a fresh process
+func opReexec(f []string) string {
+	n, _ := strconv.Atoi(f[0])
+	loaded := zexec.NewInterpreter("verif").SetExternalLibs(stdLibs()).LoadScript(parseCps(f[1]))
+	outs := []string{}
+	for i := 0; i < n; i++ {
+		func() {
+			defer func() {
+				if r := recover(); r != nil {
+					restoreStdout()
+					outs = append(outs, "panic")
+				}
+			}()
+			captureStdout()
+			res, err := loaded.Execute(nil)
+			tr := finishCapture()
+			if err != nil {
+				outs = append(outs, canonErr(err)+" | "+traceField(tr))
+			} else {
+				outs = append(outs, "ok "+canon(res, 0)+" | "+traceField(tr))
+			}
+		}()
+	}
+	return strings.Join(outs, " ;; ")
 }
